@@ -78,9 +78,12 @@ class Ref:
 # ----------------------------------------------------------------------------- running the implementation
 
 
-def _mk_op(label):
-    from hugr import ops
+def _mk_op(label, nports=0):
+    from hugr import ops, tys
 
+    if nports:
+        sig = tys.FunctionType([tys.Bool] * nports, [tys.Bool] * nports)
+        return ops.Custom(f"n{label}", signature=sig, extension="verif")
     return ops.Custom(f"n{label}", extension="verif")
 
 
@@ -99,9 +102,10 @@ def _label(op):
 class Run:
     """Executes a history on a real Hugr (and optionally a reference alongside)."""
 
-    def __init__(self, with_ref=True):
+    def __init__(self, with_ref=True, nports=0):
         from hugr.hugr import Hugr
 
+        self.nports = nports
         self.h = Hugr()
         self.ref = Ref() if with_ref else None
         if self.ref is not None:
@@ -126,7 +130,7 @@ class Run:
                 self.counter += 1
                 lab = self.counter
                 n = h.add_node(
-                    _mk_op(lab), self.node(parent) if parent is not None else None, num_outs,
+                    _mk_op(lab, self.nports), self.node(parent) if parent is not None else None, num_outs,
                     dict(meta) if meta else None,
                 )
                 self.handles[n.idx] = (n, num_outs)
@@ -167,7 +171,7 @@ class Run:
                 return ("ok", None)
             if k == "insert_hugr":
                 _, sub, parent = op
-                r2 = Run(with_ref=True)
+                r2 = Run(with_ref=True, nports=self.nports)
                 for o in sub:
                     t, _ = r2.apply(o)
                     if t != "ok":
